@@ -194,6 +194,60 @@ impl DapClient {
         }
     }
 
+    pub fn last_seq(&self) -> usize {
+        self.seq
+    }
+
+    /// Wait until every one of the given requests has been answered (events are queued).
+    pub fn await_responses(&mut self, seqs: &[usize]) -> Result<(), ClientErr> {
+        let mut open: Vec<u64> = seqs.iter().map(|s| *s as u64).collect();
+        while !open.is_empty() {
+            match self.rx.recv_timeout(self.timeout) {
+                Ok(v) => {
+                    self.note_incoming(&v);
+                    match v.get("type").and_then(|t| t.as_str()) {
+                        Some("response") => {
+                            if let Some(rs) = v.get("request_seq").and_then(|s| s.as_u64()) {
+                                open.retain(|s| *s != rs);
+                            }
+                        }
+                        Some("event") => self.pending_events.push_back(v),
+                        _ => {}
+                    }
+                }
+                Err(RecvTimeoutError::Timeout) => {
+                    hist("dap", "timeout", json!({ "awaiting": open }));
+                    self.dead = true;
+                    return Err(ClientErr::Timeout);
+                }
+                Err(RecvTimeoutError::Disconnected) => {
+                    self.dead = true;
+                    return Err(ClientErr::Closed);
+                }
+            }
+        }
+        Ok(())
+    }
+
+    /// Read whatever arrives until nothing has arrived for `quiet` (simulated time).
+    pub fn settle(&mut self, quiet: Duration) {
+        loop {
+            match self.rx.recv_timeout(quiet) {
+                Ok(v) => {
+                    self.note_incoming(&v);
+                    if v.get("type").and_then(|t| t.as_str()) == Some("event") {
+                        self.pending_events.push_back(v);
+                    }
+                }
+                Err(RecvTimeoutError::Timeout) => return,
+                Err(RecvTimeoutError::Disconnected) => {
+                    self.dead = true;
+                    return;
+                }
+            }
+        }
+    }
+
     pub fn take_event(&mut self, name: &str) -> Option<Value> {
         let i = self.pending_events.iter().position(|e| e.get("event").and_then(|n| n.as_str()) == Some(name))?;
         self.pending_events.remove(i)
